@@ -5,6 +5,9 @@
  *   c15_zstd_ref cs [level [windowlog]]  the same through the streaming interface without announcing the size: the frame header
  *                            then carries a window descriptor (the window the level asks for, e.g. 2^27 at level 22), as in `zstd < pipe`
  *   (all three: an optional third argument sets the window log, e.g. `cs 19 27`)
+ *   c15_zstd_ref d1          the same, but the input is offered one byte at a time: libzstd then never takes its one-pass shortcut
+ *                            (whole frame + enough room), whose checks are stricter than those of the streaming path in some
+ *                            versions (1.5.4: a Frame_Content_Size larger than the content is only noticed by the shortcut)
  *   c15_zstd_ref d           strictly expand stdin: any number of complete frames, nothing else; exit 1 = damaged,
  *                            exit 2 = ends inside a frame
  */
@@ -63,12 +66,14 @@ int main(int argc, char **argv)
 		return 0;
 	} else {
 		ZSTD_DStream *d = ZSTD_createDStream();
-		ZSTD_inBuffer ib = { in, n, 0 };
+		int bytewise = strcmp(argv[1], "d1") == 0;
+		ZSTD_inBuffer ib = { in, bytewise ? (n ? 1 : 0) : n, 0 };
 		static unsigned char ob[1 << 16];
 		size_t last = 0;
-		while (ib.pos < ib.size || last != 0) {
+		while (ib.pos < n || last != 0) {
 			ZSTD_outBuffer o = { ob, sizeof ob, 0 };
 			size_t p = ib.pos;
+			if (bytewise) ib.size = ib.pos < n ? ib.pos + 1 : n;
 			r = ZSTD_decompressStream(d, &o, &ib);
 			if (ZSTD_isError(r)) { fprintf(stderr, "zstd: %s\n", ZSTD_getErrorName(r)); return 1; }
 			fwrite(ob, 1, o.pos, stdout);
